@@ -185,13 +185,23 @@ class _Ctl:
             raise _Boom(name)
 
 
+BIG = (2, 12000, 8)          # a series block well beyond SQLite's default page cache (~2 MB): dirty pages reach the file before COMMIT
+
+
 def sqlite_fault_traces():
     from black_it.utils import sqlite3_checkpointing as mod
 
-    known = ckpt.Known(["A", "B"], "sqlite")
     traces = []
     real_connect = sqlite3.connect
-    for before, prev, new in PAIRS:
+    for shape, pairs in (((2, 5, 1), PAIRS), (BIG, [("same-run", ("A", 2), ("A", 3)), ("other-run-more", ("B", 4), ("A", 3))])):
+        known = ckpt.Known(["A", "B"], "sqlite", shape)
+        traces += _sqlite_faults(mod, real_connect, known, pairs, shape)
+    return traces
+
+
+def _sqlite_faults(mod, real_connect, known, pairs, shape):
+    traces = []
+    for before, prev, new in pairs:
         k = 1
         while True:
             folder = tempfile.mkdtemp(prefix="verif-c06-sql-")
@@ -199,7 +209,7 @@ def sqlite_fault_traces():
                 evs = []
                 with quiet():
                     if prev:
-                        ckpt.save(folder, *prev, "sqlite")
+                        ckpt.save(folder, *prev, "sqlite", shape)
                         evs.append({"e": "save", "b": "sqlite", "run": prev[0], "rows": prev[1]})
                     ctl = _Ctl(k)
 
@@ -216,7 +226,7 @@ def sqlite_fault_traces():
                     try:
                         raised = False
                         try:
-                            ckpt.save(folder, *new, "sqlite")
+                            ckpt.save(folder, *new, "sqlite", shape)
                         except _Boom:
                             raised = True
                     finally:
@@ -225,7 +235,7 @@ def sqlite_fault_traces():
                         break                      # k is past the last statement
                     evs.append({"e": "interrupted", "b": "sqlite", "run": new[0], "rows": new[1], "point": ctl.names[-1]})
                     evs.append(ckpt.load(folder, "sqlite", known, [new] + ([prev] if prev else [])))
-                traces.append({"ev": evs, "before": before, "at": ctl.names[-1], "sub": f"statement {k}", "file": "checkpoint.sqlite",
+                traces.append({"ev": evs, "before": before, "at": ctl.names[-1], "sub": f"statement {k}" + (" (large state)" if shape == BIG else ""), "file": "checkpoint.sqlite",
                                "real": outcome(evs[-1], prev, new), "predicted": None, "prev": prev, "new": new})
             finally:
                 shutil.rmtree(folder, ignore_errors=True)
